@@ -179,11 +179,30 @@ def exec_history(case):
 def strat_history(draw, tier):
     n = draw(st.integers(2, 3))
     walks = []
+    pattern = draw(st.sampled_from(["free", "escalate", "escalate"]))
     for i in range(n):
         w = draw(scen.pyramid_cases(3 if tier == "quick" else 4, min_depth=1))
         if w.get("k", 1) == 1 and draw(st.booleans()):
             w["k"] = 2
             w["sched"] = draw(scen.schedules())
+        if pattern == "escalate":
+            # a filtered parallel walk first, then parallel walks of deeper, unfiltered pyramids: whatever the
+            # first walk leaves behind (tables, buffers) meets tiles that now have four live children
+            w.pop("apex", None)
+            if w.get("k", 1) == 1:
+                w["k"] = draw(st.sampled_from([2, 3]))
+                w["sched"] = draw(scen.schedules())
+            if i == 0:
+                w["kind"] = "filtered"
+                w["depth"] = draw(st.integers(1, 2))
+                w["filter"] = draw(gens.filter_specs(w["depth"]))
+                w.setdefault("coordsys", "astronomical")
+            else:
+                w["kind"] = draw(st.sampled_from(["generic", "toast"]))
+                w.pop("filter", None)
+                w["depth"] = min(4, walks[0]["depth"] + draw(st.integers(0, 2)))
+                if w["kind"] == "toast":
+                    w.setdefault("coordsys", "astronomical")
         walks.append(w)
     return {"walks": walks}
 
